@@ -18,13 +18,13 @@ import (
 // C04: PAR1 create / verify / repair round trip.
 
 type p1Case struct {
-	Cfg     scen.P1Config `json:"cfg"`
-	FileDmg []int         `json:"fdmg"` // per file: 0 ok, 1 deleted, 2 last byte changed, 3 truncated by one, 4 emptied, 5 garbage of same length, 6 cut to exactly 16384 bytes, 7 a byte changed beyond the first 16 KiB
-	VolDel  []int         `json:"voldel,omitempty"` // volumes (1-based) deleted
-	VolDmg  []int         `json:"voldmg,omitempty"` // per volume: 0 ok, 1 deleted, 2 one byte corrupted, 3 replaced by a foreign set's volume, 4 truncated, 5 valid hashes but wrong parity data
-	DC      bool          `json:"dc,omitempty"`
-	Extra   []string      `json:"extra,omitempty"`
-	DiskTwin bool         `json:"disktwin,omitempty"` // additionally run the same directory through the exported API on a real directory
+	Cfg      scen.P1Config `json:"cfg"`
+	FileDmg  []int         `json:"fdmg"`             // per file: 0 ok, 1 deleted, 2 last byte changed, 3 truncated by one, 4 emptied, 5 garbage of same length, 6 cut to exactly 16384 bytes, 7 a byte changed beyond the first 16 KiB
+	VolDel   []int         `json:"voldel,omitempty"` // volumes (1-based) deleted
+	VolDmg   []int         `json:"voldmg,omitempty"` // per volume: 0 ok, 1 deleted, 2 one byte corrupted, 3 replaced by a foreign set's volume, 4 truncated, 5 valid hashes but wrong parity data
+	DC       bool          `json:"dc,omitempty"`
+	Extra    []string      `json:"extra,omitempty"`
+	DiskTwin bool          `json:"disktwin,omitempty"` // additionally run the same directory through the exported API on a real directory
 }
 
 func applyP1(s *scen.P1Set, c *p1Case, seed int64) *envfs.FS {
@@ -209,7 +209,6 @@ func runP1(c *p1Case, r *core.Rec, cl p1Clauses) {
 		}
 	}
 }
-
 
 func c04Gen(g *core.Gen) {
 	sizesSet := []int{0, 1, 2, 5, 9}
